@@ -420,6 +420,7 @@ func runLife(t *testing.T, sc *Scenario) (st *stats, err error) {
 		l.c.SetClient(l.srv.Update)
 		st.size("life-ops", len(sc.Ops), 50, 100, 200, 300)
 		st.size("life-targets", len(l.targets), 3, 9, 17, 33)
+		maxOpen := 0
 		closeDue := func(step int) error {
 			keep := l.open[:0]
 			for _, r := range l.open {
@@ -492,6 +493,9 @@ func runLife(t *testing.T, sc *Scenario) (st *stats, err error) {
 				} else {
 					st.label("stream-held-open")
 					l.open = append(l.open, r)
+					if len(l.open) > maxOpen {
+						maxOpen = len(l.open)
+					}
 				}
 			}
 			if err != nil {
@@ -508,6 +512,7 @@ func runLife(t *testing.T, sc *Scenario) (st *stats, err error) {
 		}
 		st.size("life-modes", len(l.modes), 4, 8, 16, 32)
 		st.size("life-peers", len(l.peers), 8, 32)
+		st.size("life-open-streams", maxOpen, 2, 5, 17, 33)
 		// the server and the cache still work: a fresh value for the first target, asked for by a valid request
 		where = func() string { return "the final valid update and probe" }
 		if !l.c.HasTarget(l.targets[0]) {
